@@ -628,7 +628,7 @@ SEARCH_MODEL_TRUSTED = [
 ]
 
 reg(Prop("C06", "Search returns a legal move unless the game is over; board left untouched",
-         ["Properties/C06.v", "Properties/C06_skel.v", "Properties/C06_model.v", "Properties/C06_closed.v"],
+         ["Properties/C06.v", "Properties/C06_skel.v", "Properties/C06_model.v", "Properties/C06_closed.v", "Properties/C06_model2.v"],
          [StreamCfg("c06", 20000, 150000, judge="judge_c06", model=False,
                     rule="40 fixed roots (in check, single reply, promotion, en passant, clocks 97..101, 2nd/3rd/4th occurrence "
                          "through histories, mate, stalemate, 16 queens) x {every hard node budget k in 0..300 (quick) / 0..2000+ "
@@ -650,11 +650,16 @@ reg(Prop("C06", "Search returns a legal move unless the game is over; board left
                       "closed search model (Properties/C06_model.v): board_restored is proved for alphaBeta / quiescence / Go of the "
                       "executable model for every class of positions closed under the moves played; on C03's invariant it rests on two "
                       "named hypotheses (gen_applicable = C03's open statement about generated moves; invariant_kept = ep_inv / castle_inv "
-                      "survive make / make_null)"],
+                      "survive make / make_null)",
+                      "closed search model, legality (Properties/C06_model2.v): returned move null or playable is PROVED for representable "
+                      "valid roots, tables holding only 15-bit move encodings (necessary: IsPseudoLegal ignores bit 15; kept by the search) "
+                      "and a well-formed PV buffer; null-only-if-final is proved as a classification with two named anomalies "
+                      "(ply-1 value above Inf; beta > 32053) and 'mate/stalemate score' in place of 'no playable move'; the outcome "
+                      "OutOfFuel is not excluded (statements C06_model_no_out_of_fuel_statement, _quiescence_depth_, _gen_count_)"],
          design_ref="5/C06"))
 
 reg(Prop("C07", "Reported variations are legal lines and agree with the move played",
-         ["Properties/C07.v", "Properties/C07_skel.v", "Properties/C07_model.v"],
+         ["Properties/C07.v", "Properties/C07_skel.v", "Properties/C07_model.v", "Properties/C07_model2.v"],
          [StreamCfg("c07", 8000, 60000, judge="judge_c07", model=False,
                     rule="the C06 request sweep; every info line parsed and every variation replayed move by move on the Go board; "
                          "non-trivial = non-final root"),
@@ -675,7 +680,10 @@ reg(Prop("C07", "Reported variations are legal lines and agree with the move pla
                       "no claim about the move returned when no non-empty variation was reported (abort before the first completed depth >= 1)",
                       "closed search model (Properties/C07_model.v): the model's iterative deepening is proved to be Layer B instantiated "
                       "with the model's alphaBeta (under board restoration); legality of every reported line on the closed model is a "
-                      "statement (C07_model_lines_legal_statement), checked per run by judge_search"],
+                      "statement (C07_model_lines_legal_statement), checked per run by judge_search",
+                      "closed search model, legality (Properties/C07_model2.v): every reported line legal, best = head of the last non-empty "
+                      "line, ponder move legal after it are PROVED for representable valid roots, 15-bit table moves, well-formed PV buffer "
+                      "(runs with outcome Ok)"],
          design_ref="5/C07"))
 
 reg(Prop("C08", "Search is reproducible and never overspends its node budget",
